@@ -17,7 +17,7 @@
 (* One replay case per explored state.                                      *)
 EXTENDS Lookup, TLC, Json
 LOCAL SX == INSTANCE SequencesExt
-CONSTANTS Mode, Big
+CONSTANTS Mode, Big, RawBig, ColsFull
 VARIABLE c
 
 Id(lo, hi, t) == IF t = 0 THEN <<lo, 0, 0, 0, hi, 0, 0, 0>>
@@ -25,9 +25,11 @@ Id(lo, hi, t) == IF t = 0 THEN <<lo, 0, 0, 0, hi, 0, 0, 0>>
 U1 == {Id(1, 0, 0), Id(0, 1, 0), Id(0, 0, 1)}
 U2 == {Id(lo, hi, t) : lo \in 0..1, hi \in 0..1, t \in 0..1} \ {Zero(8)}
 U4 == {Id(lo, hi, t) : lo \in 0..3, hi \in 0..3, t \in 0..1} \ {Zero(8)}
+U4small == {Id(0, 1, 0), Id(0, 2, 0), Id(0, 3, 0), Id(1, 0, 0), Id(1, 2, 0), Id(2, 2, 0), Id(3, 0, 0), Id(3, 3, 0),
+            Id(0, 0, 1), Id(1, 2, 1)}
 U8small == {Id(0, 0, 1), Id(0, 2, 0), Id(0, 3, 0), Id(0, 4, 0), Id(1, 6, 0), Id(7, 7, 0), Id(4, 1, 0)}
 U8big   == U8small \cup {Id(1, 0, 0), Id(7, 0, 1), Id(3, 2, 1)}
-Universe(N) == CASE N = 1 -> U1 [] N = 2 -> U2 [] N = 4 -> U4 [] N = 8 -> IF Big THEN U8big ELSE U8small
+Universe(N) == CASE N = 1 -> U1 [] N = 2 -> U2 [] N = 4 -> (IF Big THEN U4 ELSE U4small) [] N = 8 -> IF Big THEN U8big ELSE U8small
 
 Sizes == {1, 2, 4, 8}
 
@@ -42,10 +44,9 @@ IxOf(st, ver) == [ver |-> ver, cols |-> <<1, 3>>, slots |-> st.slots,
 (* The state is the slot layout only; row numbers are assigned at emission   *)
 (* by the rank of the id among the ids present (a permutation of 1..n), so   *)
 (* insertion orders that give the same layout are one state.                 *)
-UOrder(N) == SX!SetToSeq(Universe(N))
-UIdx(N, id) == CHOOSE i \in DOMAIN UOrder(N) : UOrder(N)[i] = id
+Key(id) == id[1] + 256 * id[5]                     \* injective on every universe above
 Present(slots) == {slots[i].id : i \in DOMAIN slots} \ {Zero(8)}
-Rank(N, P, id) == Cardinality({x \in P : UIdx(N, x) <= UIdx(N, id)})
+Rank(N, P, id) == Cardinality({x \in P : Key(x) <= Key(id)})
 WithRows(slots) == LET N == Len(slots)
                        P == Present(slots) IN
     [i \in 1..N |-> IF IsZero(slots[i].id) THEN slots[i]
@@ -95,7 +96,7 @@ ProbeInv == c.m = "probe" =>
 (* one with an even secondary hash, one elsewhere                           *)
 RawIds(N) == IF N = 8 THEN {Zero(8), Id(0, 3, 0), Id(1, 2, 0)}
              ELSE {Zero(8), Id(0, 3, 0), Id(0, 2, 0), Id(1, 0, 1), Id(3, 1, 0)}
-RawInit == c \in {[m |-> "raw", slots |-> EmptySlots(N), k |-> 1, nunits |-> N - 1] : N \in {2, 4, 8}}
+RawInit == c \in {[m |-> "raw", slots |-> EmptySlots(N), k |-> 1, nunits |-> N - 1] : N \in IF RawBig THEN {2, 4, 8} ELSE {2, 4}}
 RawNext ==
     /\ c.k <= Len(c.slots)
     /\ \E id \in RawIds(Len(c.slots)) :
@@ -107,7 +108,8 @@ RawInv == (c.m = "raw" /\ c.k = Len(c.slots) + 1) =>
 
 (*---------------------------- mode cols ---------------------------------*)
 Codes(ver) == IF ver = 2 THEN 1..8 ELSE {1, 3, 4, 5, 6, 7, 8}
-ColSeqs(ver) == {SX!SetToSeq(S) : S \in SUBSET Codes(ver)}
+ColSeqs(ver) == {SX!SetToSeq(S) : S \in {T \in SUBSET Codes(ver) :
+                                              ColsFull \/ Cardinality(T) <= 2 \/ Cardinality(T) >= Cardinality(Codes(ver)) - 1}}
                 \cup {<<3, 1>>, <<1, 3, 1>>, <<8, 7, 6, 5, 4, 3, 1>>}            \* order, duplicate column
                 \cup {<<1, 9>>, <<0>>, <<1, 2, 3>>, <<1, 3, 4, 5, 6, 7, 8, 1, 3>>} \* unknown kinds, 9 columns
 CId1 == Id(1, 2, 0)
@@ -152,7 +154,12 @@ ColsInv == (c.m = "cols" /\ c.stage = 1) =>
     /\ (~c.oob => PrintT(<<"CASE", ToJson(IndexCase(ix, c.le, {CId1, CId2, TId1}, "cols"))>>))
     /\ PrintT(<<"CASE", ToJson(DwpCase(ix, TuIx(c.ver), c.le))>>)
 
-Init == CASE Mode = "probe" -> ProbeInit [] Mode = "raw" -> RawInit [] Mode = "cols" -> ColsInit
-Next == CASE Mode = "probe" -> ProbeNext [] Mode = "raw" -> RawNext [] Mode = "cols" -> ColsNext
+Modes == IF Mode = "all" THEN {"probe", "raw", "cols"} ELSE {Mode}
+Init == \/ "probe" \in Modes /\ ProbeInit
+        \/ "raw" \in Modes /\ RawInit
+        \/ "cols" \in Modes /\ ColsInit
+Next == \/ c.m = "probe" /\ ProbeNext
+        \/ c.m = "raw" /\ RawNext
+        \/ c.m = "cols" /\ ColsNext
 Inv == ProbeInv /\ RawInv /\ ColsInv
 =============================================================================
